@@ -369,7 +369,7 @@ func vfC20Run(c vfC20Case, ctx *vfCtx) *vfViolation {
 	}
 
 	// ---- training an index twice gives search-identical indexes ---------------------
-	build := func() (VectorIndex, error, error) {
+	build := func(twice bool) (VectorIndex, error, error) {
 		var idx VectorIndex
 		var err error
 		switch c.IndexKind {
@@ -390,6 +390,17 @@ func vfC20Run(c vfC20Case, ctx *vfCtx) *vfViolation {
 		if err := idx.Train(train); err != nil {
 			return idx, nil, err
 		}
+		if twice {
+			// the same OBJECT trained again on the same data: nothing of the first run may carry over
+			again := make([]VectorNode, n)
+			for i, v := range c.Vectors {
+				again[i] = *NewVectorNodeWithID(uint32(i+1), vfCloneF32(v))
+			}
+			if err := idx.Train(again); err != nil {
+				return idx, nil, err
+			}
+			ctx.Class("index_object_trained_twice")
+		}
 		for i, v := range c.Vectors {
 			if err := idx.Add(*NewVectorNodeWithID(uint32(i+1), vfCloneF32(v))); err != nil {
 				return idx, nil, err
@@ -398,8 +409,8 @@ func vfC20Run(c vfC20Case, ctx *vfCtx) *vfViolation {
 		return idx, nil, nil
 	}
 	if dim%c.M == 0 {
-		a, errA, trainA := build()
-		b, errB, trainB := build()
+		a, errA, trainA := build(false)
+		b, errB, trainB := build(n%2 == 0)
 		if errA != nil || errB != nil {
 			return vfFail("constructor of %s failed: %v / %v", c.IndexKind, errA, errB)
 		}
